@@ -22,6 +22,7 @@ sequence of decisions (path-sensitive abstract interpretation, no solver).
 Anything outside the modelled subset raises Uninterpretable -> ANALYSIS-ERROR.
 """
 import ast
+import re as _re
 import builtins as _builtins
 
 from .core import AnalysisError, unparse
@@ -191,9 +192,10 @@ class Obj(object):
         Obj._n += 1
         self.oid = Obj._n
         self.label = label
+        self.astcls = None        # set for a stub standing for a node of the stdlib ast (type(o) is ast.<astcls>)
 
     def __repr__(self):
-        return '<%s#%s%s>' % (self.cls.name, self.oid, ' ' + self.label if self.label else '')
+        return '<%s#%s%s>' % (self.astcls or self.cls.name, self.oid, ' ' + self.label if self.label else '')
 
 
 class SymDict(object):
@@ -249,6 +251,12 @@ class NativeModule(object):
         self.mod = mod
 
 
+class NullLogger(object):
+    """logging.getLogger(...): every method is a no-op (log output is not part of any property)."""
+    def __repr__(self):
+        return '<logger>'
+
+
 class SuppModule(object):
     def __init__(self, rel):
         self.rel = rel
@@ -256,8 +264,17 @@ class SuppModule(object):
 
 # ---------------------------------------------------------------------------
 
+def _canon_key(x):
+    if isinstance(x, Obj):
+        return (0, x.oid, '')
+    if isinstance(x, str):
+        return (1, 0, x)
+    return (2, 0, repr(x))
+
+
 class Interp(object):
     MAX_STEPS = 200000
+    set_order = 'fwd'
 
     def __init__(self, repo, facts):
         self.repo = repo
@@ -341,7 +358,9 @@ class Interp(object):
         elif isinstance(st, ast.Import):
             for a in st.names:
                 local = a.asname or a.name.split('.')[0]
-                if a.name in ('sys', 'string', 'builtins', 'os', 'os.path'):
+                if a.name == 'logging':
+                    env[local] = NullLogger()
+                elif a.name in ('sys', 'string', 'builtins', 'os', 'os.path', 're'):
                     env[local] = NativeModule(a.name.split('.')[0], __import__(a.name.split('.')[0]))
                 else:
                     env[local] = Unknown('module ' + a.name)
@@ -597,6 +616,19 @@ class Interp(object):
         if isinstance(v, (list, dict, set, str, tuple)):
             return Native('%s.%s' % (type(v).__name__, attr),
                           lambda it, a, k, _v=v, _a=attr: it.native_method(_v, _a, a, k))
+        if isinstance(v, Native) and isinstance(getattr(_builtins, v.name, None), type) \
+                and callable(getattr(getattr(_builtins, v.name), attr, None)):
+            um = getattr(getattr(_builtins, v.name), attr)       # unbound method of a builtin type: str.lower, dict.get ...
+            return Native('%s.%s' % (v.name, attr), lambda it, a, k, _m=um: _m(*a, **k), False)
+        if isinstance(v, NullLogger):
+            if attr == 'getLogger':
+                return Native('getLogger', lambda it, a, k: NullLogger())
+            return Native('log.' + attr, lambda it, a, k: None)
+        if isinstance(v, (_re.Match, _re.Pattern)):
+            if attr in ('group', 'groups', 'start', 'end', 'span', 'search', 'match', 'fullmatch', 'findall', 'sub', 'split'):
+                return Native('re.%s' % attr, lambda it, a, k, _m=getattr(v, attr): _m(*a, **k), model=True)
+            if attr in ('pattern', 'string', 'pos', 'endpos', 'lastindex'):
+                return getattr(v, attr)
         if isinstance(v, ExcVal):
             if attr in v.attrs:
                 return v.attrs[attr]
@@ -635,6 +667,9 @@ class Interp(object):
             raise InterpRaise(type(e).__name__, str(e))
 
     def _native_method(self, v, attr, args, kwargs):
+        if isinstance(v, list) and attr == 'sort':
+            v[:] = self.nat_sorted([list(v)], kwargs)
+            return None
         args = [self.iterate(a) if isinstance(a, Obj) and a.cls.lookup('__iter__') is not None
                 and attr in ('update', 'extend', 'difference', 'union') else a for a in args]
         if isinstance(v, (list, set, dict)) and attr in ('append', 'add', 'extend', 'update', 'insert',
@@ -688,6 +723,12 @@ class Interp(object):
                         return True
             return False
         if isinstance(v, Obj):
+            if v.astcls is not None:
+                mine = getattr(ast, v.astcls)
+                for k in classes:
+                    if isinstance(k, AstClass) and issubclass(mine, getattr(ast, k.name, ()) or ()):
+                        return True
+                return False
             for k in classes:
                 if isinstance(k, ClassRef) and any(m is k.info for m in v.cls.mro()):
                     return True
@@ -706,7 +747,7 @@ class Interp(object):
         if isinstance(v, SymNode):
             return AstClass(v.cls) if v.cls else OpaqueType(v.sort)
         if isinstance(v, Obj):
-            return ClassRef(v.cls)
+            return AstClass(v.astcls) if v.astcls is not None else ClassRef(v.cls)
         if isinstance(v, Unknown):
             raise Uninterpretable('type() of %r' % v)
         return Native(type(v).__name__, None)
@@ -750,6 +791,20 @@ class Interp(object):
         if isinstance(v, (list, tuple, dict, set, str)):
             return len(v)
         raise Uninterpretable('len of %r' % (v,))
+
+    def nat_id(self, args, kwargs):
+        v, = args
+        if isinstance(v, Obj):      # an address: unspecified, fixed by the same policy as set iteration
+            return v.oid if self.set_order == 'fwd' else 10 ** 9 - v.oid
+        raise Uninterpretable('id() of %r' % (v,))
+
+    def nat_hash(self, args, kwargs):
+        v, = args
+        if isinstance(v, Obj):
+            return v.oid if self.set_order == 'fwd' else 10 ** 9 - v.oid
+        if isinstance(v, int):
+            return hash(v)
+        raise Uninterpretable('hash() of %r' % (v,))
 
     def nat_enumerate(self, args, kwargs):
         return list(enumerate(self.iterate(args[0])))
@@ -871,7 +926,14 @@ class Interp(object):
     def iterate(self, v):
         if isinstance(v, (list, tuple)):
             return list(v)
-        if isinstance(v, (set, dict)):
+        if isinstance(v, (set, frozenset)):
+            # the iteration order of a set is unspecified (hash seed, addresses): it is fixed here by the policy
+            # `set_order`, and order-observing analyses run every scenario under both policies
+            items = sorted(v, key=_canon_key)
+            if self.set_order == 'rev':
+                items.reverse()
+            return items
+        if isinstance(v, dict):
             return list(v)
         if isinstance(v, str):
             return list(v)
@@ -910,7 +972,7 @@ class Interp(object):
     def truth(self, v, node):
         if v is None or isinstance(v, (bool, int, str, list, tuple, dict, set, float)):
             return bool(v)
-        if isinstance(v, (SymNode, Obj, FuncVal, ClassRef, AstClass, LocExpr, Native)):
+        if isinstance(v, (SymNode, Obj, FuncVal, ClassRef, AstClass, LocExpr, Native, _re.Match, _re.Pattern)):
             return True
         if isinstance(v, Unknown):
             return self.decide(('truth', v.tag))
